@@ -22,6 +22,18 @@ type refCfg struct {
 	auto        bool   // library server in GMSSL/TLS auto-switch mode (GMSSL reference client)
 }
 
+func (r refCfg) ecdhe() bool {
+	switch r.suite {
+	case gmref.SuiteECDHERSAGCM, gmref.SuiteECDHEECDSAGCM, gmref.SuiteECDHEECDSACBC, gmref.SuiteECDHERSACBC256:
+		return true
+	}
+	return false
+}
+
+func (r refCfg) ecdsaServer() bool {
+	return r.suite == gmref.SuiteECDHEECDSAGCM || r.suite == gmref.SuiteECDHEECDSACBC
+}
+
 func (r refCfg) version() uint16 {
 	if r.ver != 0 {
 		return r.ver
@@ -46,9 +58,9 @@ func (r refCfg) String() string {
 // identity of the reference peer in the role it plays against the library.
 func (r refCfg) identity() gmref.Identity {
 	p := tlsk.Get()
-	ecdhe := r.suite == gmref.SuiteECDHERSAGCM || r.suite == gmref.SuiteECDHEECDSAGCM
+	ecdhe := r.ecdhe()
 	switch {
-	case ecdhe && r.libIsClient && r.suite == gmref.SuiteECDHEECDSAGCM:
+	case ecdhe && r.libIsClient && r.ecdsaServer():
 		return gmref.Identity{Certs: [][]byte{p.ECDSA.Certificate[0]}, TLSKey: p.ECDSAKey}
 	case ecdhe && r.libIsClient:
 		return gmref.Identity{Certs: [][]byte{p.RSA.Certificate[0]}, TLSKey: p.RSAKey}
@@ -69,13 +81,16 @@ func (r refCfg) setup(q *gmref.Peer) {
 	if r.suite == gmref.SuiteECDHERSAGCM || r.suite == gmref.SuiteECDHEECDSAGCM {
 		q.UseECDHE()
 	}
+	if r.suite == gmref.SuiteECDHEECDSACBC || r.suite == gmref.SuiteECDHERSACBC256 {
+		q.UseECDHECBC(r.version())
+	}
 	q.Suites = []uint16{r.suite}
 	q.RequestCert = r.auth
 }
 
 // streams are the conformant server-to-client message streams of the profile.
 func (r refCfg) serverStreams() [][]string {
-	if !r.tls || r.suite == gmref.SuiteECDHERSAGCM || r.suite == gmref.SuiteECDHEECDSAGCM {
+	if !r.tls || r.ecdhe() {
 		return refdev.ServerStreams() // with ServerKeyExchange
 	}
 	return [][]string{
@@ -95,7 +110,7 @@ func (r refCfg) libConfig() *gmtls.Config {
 			return c
 		}
 		scert := p.RSA
-		if r.suite == gmref.SuiteECDHEECDSAGCM {
+		if r.ecdsaServer() {
 			scert = p.ECDSA
 		}
 		s := &gmtls.Config{Certificates: []gmtls.Certificate{scert}, Time: tlsk.FixedTime, Rand: wire.NewRand(22), CipherSuites: []uint16{r.suite}, MinVersion: r.version(), MaxVersion: r.version()}
@@ -577,7 +592,18 @@ func refUnits() []harness.Unit {
 		}
 		for _, es := range []uint16{gmref.SuiteECDHERSAGCM, gmref.SuiteECDHEECDSAGCM} {
 			r := refCfg{lc, es, es == gmref.SuiteECDHERSAGCM, true, 0, false}
-			u = append(u, refSequenceUnit(r, 0), refSequenceUnit(r, 1), refStraddleUnit(r))
+			u = append(u, refSequenceUnit(r, 0), refSequenceUnit(r, 1), refStraddleUnit(r), refMalformedUnit(r))
+		}
+		// ephemeral ECDH with the CBC suites at every TLS version (below 1.2 the signed parameters
+		// carry no algorithm bytes and use the fixed RFC 4492 digests)
+		for _, v := range []uint16{0x0301, 0x0302, 0x0303} {
+			for _, es := range []uint16{gmref.SuiteECDHEECDSACBC, gmref.SuiteECDHERSACBC256} {
+				r := refCfg{lc, es, es == gmref.SuiteECDHEECDSACBC, true, v, false}
+				u = append(u, refMalformedUnit(r))
+				if v != 0x0303 {
+					u = append(u, refSequenceUnit(r, 0), refSequenceUnit(r, 1))
+				}
+			}
 		}
 		for _, v := range []uint16{0x0301, 0x0302} {
 			for _, auth := range []bool{false, true} {
@@ -587,6 +613,13 @@ func refUnits() []harness.Unit {
 		}
 	}
 	u = append(u, refUnofferedSuiteUnit())
+	for _, suite := range []uint16{gmtls.GMTLS_ECC_SM4_CBC_SM3, gmtls.GMTLS_ECC_SM4_GCM_SM3} {
+		u = append(u, refCertRequestUnit(refCfg{true, suite, true, false, 0, false}))
+	}
+	for _, v := range []uint16{0x0301, 0x0302, 0x0303} {
+		u = append(u, refCertRequestUnit(refCfg{true, gmref.SuiteAESCBC, true, true, v, false}))
+	}
+	u = append(u, refCertRequestUnit(refCfg{true, gmref.SuiteECDHEECDSACBC, true, true, 0x0301, false}), refCertRequestUnit(refCfg{true, gmref.SuiteECDHERSAGCM, true, true, 0x0303, false}))
 	// the auto-switch server has its own ClientHello processing in front of the GMSSL handshake
 	for _, suite := range []uint16{gmtls.GMTLS_ECC_SM4_CBC_SM3, gmtls.GMTLS_ECC_SM4_GCM_SM3} {
 		for _, auth := range []bool{false, true} {
@@ -605,7 +638,15 @@ type lenField struct {
 }
 
 // lengthFields lists the length/count fields of a framed handshake message (offsets into msg).
-func lengthFields(m []byte, tls bool) []lenField {
+func (r refCfg) fields(m []byte) []lenField {
+	return lengthFieldsL(m, r.tls && r.version() == 0x0303, r.ecdhe())
+}
+
+func lengthFields(m []byte, tls bool) []lenField { return lengthFieldsL(m, tls, false) }
+
+// lengthFieldsL: tls12 = TLS 1.2 message layouts (algorithm bytes in front of signatures, signature
+// algorithms in CertificateRequest); ecdhe = ECDHE key exchange layouts (RFC 4492).
+func lengthFieldsL(m []byte, tls, ecdhe bool) []lenField {
 	fs := []lenField{{1, 3, "handshake length"}}
 	b := 4 // body offset
 	body := m[4:]
@@ -643,7 +684,17 @@ func lengthFields(m []byte, tls bool) []lenField {
 		}
 	case gmref.HSServerKX, gmref.HSCertVerify:
 		o := 0
-		if tls && m[0] == gmref.HSCertVerify {
+		if ecdhe && m[0] == gmref.HSServerKX {
+			// curve_type(1) named_curve(2) point length(1) point, then the signature block
+			if len(body) < 4 {
+				break
+			}
+			fs = append(fs, lenField{b + 3, 1, "ephemeral point length"})
+			o = 4 + int(body[3])
+			if tls {
+				o += 2
+			}
+		} else if tls && m[0] == gmref.HSCertVerify {
 			o = 2 // hash and signature algorithm
 		}
 		if len(body) >= o+2 {
@@ -652,6 +703,12 @@ func lengthFields(m []byte, tls bool) []lenField {
 			der(b+o+4, "ASN.1 INTEGER r length")
 		}
 	case gmref.HSClientKX:
+		if ecdhe {
+			if len(body) >= 1 {
+				fs = append(fs, lenField{b, 1, "ephemeral point length"})
+			}
+			break
+		}
 		if len(body) >= 2 {
 			fs = append(fs, lenField{b, 2, "ciphertext length"})
 			if !tls {
@@ -775,12 +832,12 @@ func refMalformedUnit(r refCfg) harness.Unit {
 				}
 				// fields are located and perturbed on the message as it is built IN THAT RUN (signature
 				// encodings vary in length from run to run)
-				for _, f := range lengthFields(built, r.tls && r.version() == 0x0303) {
+				for _, f := range r.fields(built) {
 					what := f.what
 					for _, op := range []string{"+1", "-1", "=0", "=max", "+256", "^0x80"} {
 						op := op
 						try(fmt.Sprintf("%s %s", what, op), what, func(m []byte) []byte {
-							for _, g := range lengthFields(m, r.tls && r.version() == 0x0303) {
+							for _, g := range r.fields(m) {
 								if g.what != what {
 									continue
 								}
@@ -815,7 +872,28 @@ func refMalformedUnit(r refCfg) harness.Unit {
 				if body > 100 && !c.Thorough() {
 					step = 7
 				}
+				cuts := map[int]bool{}
 				for k := 0; k < body; k += step {
+					cuts[k] = true
+				}
+				// every cut at, just before and just after each length field: the places where a parser
+				// reads a count it has not checked for
+				for _, f := range r.fields(built) {
+					for k := f.off - 4 - 2; k <= f.off-4+f.size+2; k++ {
+						if k >= 0 && k < body {
+							cuts[k] = true
+						}
+					}
+				}
+				for k := body - 3; k < body; k++ {
+					if k >= 0 {
+						cuts[k] = true
+					}
+				}
+				for k := 0; k < body; k++ {
+					if !cuts[k] {
+						continue
+					}
 					k := k
 					try(fmt.Sprintf("body truncated to %d bytes (handshake length adjusted)", k), "truncated", func(m []byte) []byte {
 						if k >= len(m)-4 {
@@ -874,31 +952,60 @@ func strayVariants(m []byte) []strayVariant {
 	u24 := func(n int) []byte { return []byte{byte(n >> 16), byte(n >> 8), byte(n)} }
 	switch m[0] {
 	case gmref.HSClientHello, gmref.HSServerHello:
-		// both hellos of the reference peer end after the compression field: append an extensions block
+		// the hellos of the reference peer end after the compression field or carry an extensions
+		// block (ECDHE profiles): the variants add to the block that is there or open one
+		split := func(m []byte) (head, exts []byte) {
+			body := m[4:]
+			o := 34
+			if o >= len(body) {
+				return body, nil
+			}
+			o += 1 + int(body[o]) // session id
+			if m[0] == gmref.HSClientHello {
+				if o+2 > len(body) {
+					return body, nil
+				}
+				o += 2 + (int(body[o])<<8 | int(body[o+1])) // suites
+				if o >= len(body) {
+					return body, nil
+				}
+				o += 1 + int(body[o]) // compression methods
+			} else {
+				o += 3 // suite, compression method
+			}
+			if o+2 > len(body) {
+				return body, nil
+			}
+			return body[:o], body[o+2:]
+		}
+		with := func(m []byte, blk []byte) []byte {
+			head, exts := split(m)
+			all := append(append([]byte{}, exts...), blk...)
+			b := append(append([]byte{}, head...), u16(len(all))...)
+			return gmref.HS(m[0], append(b, all...))
+		}
 		ext := []byte{0x12, 0x34, 0, 2, 0xaa, 0xbb} // one unknown extension
 		verdict := refdev.MustComplete
 		if m[0] == gmref.HSServerHello {
 			verdict = refdev.MayComplete // an extension the client did not offer: refusing it is legitimate
 		}
 		out = append(out, strayVariant{what: "one well-formed unknown extension appended", key: "unknown-extension", conformant: true, verdict: verdict, f: func(m []byte) []byte {
-			b := append(append([]byte{}, m[4:]...), u16(len(ext))...)
-			return gmref.HS(m[0], append(b, ext...))
+			return with(m, ext)
 		}})
 		for k := 1; k <= 3; k++ {
 			k := k
 			out = append(out, strayVariant{what: fmt.Sprintf("extensions block ending in %d stray byte(s) (extensions length and handshake length consistent)", k), key: "extensions-stray-bytes", f: func(m []byte) []byte {
-				blk := append(append([]byte{}, ext...), make([]byte, k)...)
-				b := append(append([]byte{}, m[4:]...), u16(len(blk))...)
-				return gmref.HS(m[0], append(b, blk...))
+				return with(m, append(append([]byte{}, ext...), make([]byte, k)...))
 			}})
 		}
 		out = append(out, strayVariant{what: "extension whose length overstates the block by one", key: "extension-length-overstated", f: func(m []byte) []byte {
-			blk := []byte{0x12, 0x34, 0, 3, 0xaa, 0xbb}
-			b := append(append([]byte{}, m[4:]...), u16(len(blk))...)
-			return gmref.HS(m[0], append(b, blk...))
-		}}, strayVariant{what: "empty extensions block followed by nothing (length 0)", key: "extensions-empty", conformant: true, verdict: refdev.MayComplete, f: func(m []byte) []byte {
-			return gmref.HS(m[0], append(append([]byte{}, m[4:]...), 0, 0))
+			return with(m, []byte{0x12, 0x34, 0, 3, 0xaa, 0xbb})
 		}})
+		if _, exts := split(m); exts == nil {
+			out = append(out, strayVariant{what: "empty extensions block followed by nothing (length 0)", key: "extensions-empty", conformant: true, verdict: refdev.MayComplete, f: func(m []byte) []byte {
+				return gmref.HS(m[0], append(append([]byte{}, m[4:]...), 0, 0))
+			}})
+		}
 	case gmref.HSCertificate:
 		for k := 1; k <= 2; k++ {
 			k := k
@@ -926,4 +1033,114 @@ func strayVariants(m []byte) []strayVariant {
 		}
 	}
 	return out
+}
+
+// ---- CertificateRequest contents x ways the client chooses its certificate ------------------------
+
+// refCertRequestUnit: a scripted server whose CertificateRequest lists every kind of acceptable
+// certificate types, signature algorithms (TLS 1.2) and authority names - usual, unusual, unknown,
+// none - against a client that picks its certificate from a static list, through
+// GetClientCertificate (returning a certificate, an empty one, or an error), or has none. The
+// request is well-formed in all of them: the client completes or returns an error; the unusual
+// lists must not crash it or leave it waiting.
+func refCertRequestUnit(r refCfg) harness.Unit {
+	return harness.Unit{Name: fmt.Sprintf("scripted-peer-certificate-request/%s", r), Run: func(c *harness.Ctx) {
+		p := tlsk.Get()
+		tls12 := r.tls && r.version() == 0x0303
+		all := make([]byte, 255)
+		for i := range all {
+			all[i] = byte(i + 1)
+		}
+		typeLists := [][]byte{{1, 64}, {1}, {64}, {2}, {3, 4}, {0xee}, {64, 1}, {2, 1}, {20, 64}, {5, 6, 20}, all, {}}
+		sigLists := [][]byte{nil}
+		if tls12 {
+			sigLists = [][]byte{{4, 3, 4, 1}, {4, 3}, {4, 1}, {2, 1}, {2, 3}, {0xff, 0xff}, {6, 3, 6, 1, 5, 3, 5, 1, 4, 3, 4, 1, 2, 3, 2, 1}, {8, 4}, {}}
+		}
+		ca := p.StdCA.RawSubject
+		own := p.CA.RawSubject
+		if !r.tls {
+			ca, own = own, ca
+		}
+		many := [][]byte{}
+		for i := 0; i < 60; i++ {
+			many = append(many, own)
+		}
+		many = append(many, ca)
+		caLists := [][][]byte{nil, {ca}, {own}, {own, ca}, {{0x30, 0x00}}, {{}}, {{0xff}}, many}
+		ways := []string{"static list", "GetClientCertificate returning the certificate", "GetClientCertificate returning an empty certificate", "GetClientCertificate returning an error", "no certificate configured"}
+		for ti, types := range typeLists {
+			for si, sigs := range sigLists {
+				for ci, cas := range caLists {
+					if !c.Thorough() && ti > 1 && si > 1 && ci > 1 {
+						continue // quick: every value of each dimension against the first two of the others
+					}
+					for wi, way := range ways {
+						body := append([]byte{byte(len(types))}, types...)
+						if tls12 {
+							body = append(body, byte(len(sigs)>>8), byte(len(sigs)))
+							body = append(body, sigs...)
+						}
+						var l []byte
+						for _, n := range cas {
+							l = append(l, byte(len(n)>>8), byte(len(n)))
+							l = append(l, n...)
+						}
+						body = append(body, byte(len(l)>>8), byte(len(l)))
+						body = append(body, l...)
+						cfg := r.libConfig()
+						crt := cfg.Certificates
+						switch wi {
+						case 1:
+							cfg.Certificates = nil
+							cfg.GetClientCertificate = func(*gmtls.CertificateRequestInfo) (*gmtls.Certificate, error) { return &crt[0], nil }
+						case 2:
+							cfg.Certificates = nil
+							cfg.GetClientCertificate = func(*gmtls.CertificateRequestInfo) (*gmtls.Certificate, error) { return new(gmtls.Certificate), nil }
+						case 3:
+							cfg.Certificates = nil
+							cfg.GetClientCertificate = func(*gmtls.CertificateRequestInfo) (*gmtls.Certificate, error) {
+								return nil, fmt.Errorf("the application declines")
+							}
+						case 4:
+							cfg.Certificates = nil
+						}
+						mut := func(fl int, items []gmref.Item) []gmref.Item {
+							if fl != 0 {
+								return items
+							}
+							out := append([]gmref.Item{}, items...)
+							for i := range out {
+								if out[i].Name == "CertificateRequest" {
+									out[i].Build = func(*gmref.Peer) []byte { return gmref.HS(gmref.HSCertRequest, body) }
+								}
+							}
+							return out
+						}
+						script := &gmref.Script{Data: tlsk.PingPong(false), Mutate: mut}
+						o := tlsk.RunLibVsRef(cfg, true, tlsk.LibApp(true), r.identity(), 23, r.setup, script, nil)
+						tag := fmt.Sprintf("%s; CertificateRequest types=%x signature algorithms=%x authorities=#%d (%d names); client: %s", r, clipBytes(types, 12), sigs, ci, len(cas), way)
+						c.Add("executions", 1)
+						c.Add("transitions", 1)
+						c.DistinctS("states", tag)
+						if c.WantSample() {
+							c.Sample(tag)
+						}
+						verdict := refdev.MayComplete
+						usual := ti == 0 && si == 0 && (ci == 0 || ci == 1 || ci == 3 || ci == 7)
+						if usual && wi != 3 {
+							verdict = refdev.MustComplete
+						}
+						judgeRef(c, r, tag, fmt.Sprintf("certificate-request:types#%d:sigs#%d:cas#%d:way#%d", ti, si, ci, wi), o, verdict)
+					}
+				}
+			}
+		}
+	}}
+}
+
+func clipBytes(b []byte, n int) []byte {
+	if len(b) > n {
+		return b[:n]
+	}
+	return b
 }
